@@ -291,3 +291,11 @@ Definition check_dca (k : case_dca) : bool :=
             else dca_step (ccgrad_of (kq_f k)) (grad_of (kq_g k)) in
   vsclose (kq_tr k) (trace (fun x => x) (kq_n k) st (kq_x k))
   && splits_ok (kq_split k) (iter (kq_n k) st (kq_x k)).
+
+(* ---- accelerated proximal gradient: alpha_k recorded from the implementation's scalar recursion ---- *)
+Record case_apg := { kv_f : fk; kv_g : fk; kv_gamma : Q; kv_alpha : list Q; kv_x : qvec; kv_n : nat;
+                     kv_tr : list qvec }.
+Definition check_apg (k : case_apg) : bool :=
+  let st := apg_step (prox_of (kv_f k) (kv_gamma k)) (grad_of (kv_g k)) (kv_gamma k)
+                     (fun j => nth j (kv_alpha k) 0) in
+  vsclose (kv_tr k) (tracek fst (kv_n k) 0 st (kv_x k, kv_x k)).
